@@ -935,32 +935,43 @@ def body(R):
     rng = R.rng
     T = R.thorough
     P = ["a", "b", ""]
-    cs2 = contexts(["a", "b"], [0, "b", None], 2)
-    cs3 = contexts(["a", "b"], [0, "b"], 3)
-    if not T:
-        cs3 = rng.sample(cs3, 250)
+    leaves2 = [0, "b", None] if T else [0, "b"]
+    cs2 = contexts(["a", "b"], leaves2, 2)
+    if T:
+        cs3 = contexts(["a", "b"], [0, "b"], 3)
+    else:                   # a sample of the depth-3 contexts without enumerating all 21609 of them
+        t2 = [ABSENT] + trees(["a", "b"], [0, "b"], 2)
+        cs3 = []
+        while len(cs3) < 100:
+            c = dict((k, v) for k, v in zip("ab", (rng.choice(t2), rng.choice(t2))) if v is not ABSENT)
+            cs3.append(clone(c))
     ps = list(paths(P, 4))
     opts = [{"value": v, "default": d, "skip": s, "rais": r, "rec": rec}
             for v in (False, True) for d in (UNSET, None, {"k": [1]}) for s in (False, True) for r in (False, True) for rec in (True, False)]
 
     def scope_1():   # get_recursively
         R.scope("get_recursively (three notations, default)",
-                "all %d contexts over keys {a,b}, nesting depth <= 2, leaves {0,'b',None}; all %d paths of length 0..4 over "
+                "all %d contexts over keys {a,b}, nesting depth <= 2, leaves %r; all %d paths of length 0..4 over "
                 "components {a,b,''}; notations list / dotted string / one-key-per-level dict; without default and with default=None; "
-                "result must be the very object / LenaKeyError" % (len(cs2), len(ps)), True)
+                "result must be the very object / LenaKeyError" % (len(cs2), leaves2, len(ps)), True)
         for ctx in cs2:
             before = copy.deepcopy(ctx)
             for ks in ps:
                 R.case(lookup(ctx, ks) is not ABSENT or through_scalar(ctx, ks), {"ctx": ctx, "path": ks})
                 report(R, "chk_get", [ctx, ks], chk_get(ctx, ks))
             R.check(ctx == before, "get_recursively/context-modified", "get_recursively changed %r to %r" % (before, ctx), {"ctx": before})
+        ps3 = [p for p in ps if "" not in p or len(p) <= 2]
         R.scope("get_recursively (three notations, default), depth 3",
-                "%s contexts over keys {a,b}, nesting depth <= 3, leaves {0,'b'}; same %d paths and notations"
-                % ("all %d" % len(cs3) if T else "%d sampled" % len(cs3), len(ps)), T)
-        for ctx in cs3:
-            for ks in ps:
+                "%s contexts over keys {a,b}, nesting depth <= 3, leaves {0,'b'}; the %d paths of length 0..4 over {a,b} and of length "
+                "<= 2 over {a,b,''}; same notations; default=None on every fourth context only"
+                % ("all %d" % len(cs3) if T else "%d sampled" % len(cs3), len(ps3)), T)
+        for i, ctx in enumerate(cs3):
+            dflts = (UNSET, None) if i % 4 == 0 else (UNSET,)
+            for ks in ps3:
                 R.case(lookup(ctx, ks) is not ABSENT or through_scalar(ctx, ks))
-                report(R, "chk_get", [ctx, ks], chk_get(ctx, ks))
+                fails = chk_get(ctx, ks, dflts)
+                if fails:
+                    report(R, "chk_get", [ctx, ks], fails)
         R.scope("get_recursively argument errors", "8 documented malformed arguments (non-dict d, non-str/list/dict keys, non-str list member, "
                 "two keys at a level)", True)
         R.case(True)
@@ -982,12 +993,12 @@ def body(R):
 
     def scope_3():   # contains
         PC = ["a", "b", "", "0"]
-        leaves_c = [0, "b", "ab", None, ["b"]]
+        leaves_c = [0, "b", "ab", None, ["b"]] if T else [0, "b", "ab", ["b"]]
         csc = contexts(["a", "b"], leaves_c, 2)
         pc = [p for p in paths(PC, 4 if T else 3, 1)]
-        R.scope("contains", "%d contexts over keys {a,b}, depth <= 2, leaves {0,'b','ab',None,['b']} (%s); all %d dotted strings of 1..%d "
+        R.scope("contains", "%d contexts over keys {a,b}, depth <= 2, leaves %r (%s); all %d dotted strings of 1..%d "
                 "components over {a,b,'','0'}: True iff get_recursively finds the path or the parent is a scalar whose str() is the last component; "
-                "no exception" % (len(csc), "all", len(pc), 4 if T else 3), True)
+                "no exception" % (len(csc), leaves_c, "all", len(pc), 4 if T else 3), True)
         for ctx in csc:
             for ks in pc:
                 R.case(True, {"ctx": ctx, "s": ".".join(ks)})
@@ -996,12 +1007,12 @@ def body(R):
     def scope_4():   # format_context, well-formed templates
         fctx = [{}, {"a": 1}, {"a": {"b": 2, "a": ""}, "b": "B"}, {"a": {"b": {"a": 0}}, "b": None},
                 {"a": "", "b": {"a": [1], "b": {"x": 1}}}, {"a": {"a": "x", "b": {"a": {"b": "deep"}}}, "b": {"b": {}}}]
-        fields = ["a", "b", "a.b", "b.a", "a.b.a", "a.b.a.b", "a.a", "b.b"] if T else ["a", "b", "a.b", "b.a", "a.b.a.b"]
+        fields = ["a", "b", "a.b", "b.a", "a.b.a", "a.b.a.b", "a.a", "b.b"] if T else ["a", "b.a", "a.b", "a.b.a.b"]
         lits = ["", "x", "a.b ", ":!"] if T else ["", "x", ":!a."]
         tpls = []
         for n in range(0, 4):
             for fs in itertools.product(fields, repeat=n):
-                for ls in itertools.product(lits, repeat=n + 1):
+                for ls in itertools.product(lits if (T or n < 3) else lits[::2], repeat=n + 1):
                     p = []
                     for i in range(n):
                         if ls[i]:
@@ -1012,9 +1023,9 @@ def body(R):
                     tpls.append(p)
         if T:
             small = [p for p in tpls if sum(1 for x in p if x[0] == "F") <= 2]
-            tpls = small + rng.sample([p for p in tpls if sum(1 for x in p if x[0] == "F") == 3], 36000)
+            tpls = small + rng.sample([p for p in tpls if sum(1 for x in p if x[0] == "F") == 3], 12000)
         R.scope("format_context (well-formed templates)",
-                "%s %d templates of 0..3 fields from %r separated by literals from %r, x %d contexts (items present, absent, falsy, "
+                "%s %d templates of 0..3 fields from %r separated by literals from %r (quick tier: only the first and last literal between 3 fields), x %d contexts (items present, absent, falsy, "
                 "through a scalar): renders exactly the addressed items / LenaKeyError" % ("" if not T else "all with <= 2 fields and a sample of the", len(tpls), fields, lits, len(fctx)), not T)
         for p in tpls:
             for ctx in fctx:
@@ -1088,10 +1099,11 @@ def body(R):
 
     def scope_8():   # DeleteContext
         dcs = cs2 if T else cs2[::2]
+        leaves2 = [0, "b", None] if T else [0, "b"]
         dps = list(paths(P, 4))
-        R.scope("DeleteContext", "%d contexts over keys {a,b}, depth <= 2, leaves {0,'b',None} (%s) x all %d paths of length 0..4 over {a,b,''} x "
+        R.scope("DeleteContext", "%d contexts over keys {a,b}, depth <= 2, leaves %r (%s) x all %d paths of length 0..4 over {a,b,''} x "
                 "notations dotted string / list / tuple: exactly the addressed item disappears, absent or through-a-scalar paths are ignored, data "
-                "untouched, no non-Lena exception" % (len(dcs), "all" if T else "every second", len(dps)), T)
+                "untouched, no non-Lena exception" % (len(dcs), leaves2, "all" if T else "every second", len(dps)), T)
         for ctx in dcs:
             for ks in dps:
                 for notation in ("dotted-string", "list", "tuple"):
@@ -1112,8 +1124,8 @@ def body(R):
                    "{{a}}{{b}}", "{{a}}x"] + MALFORMED_JINJA
         subs = [".".join(p) for p in paths(["a", "b"], 3, 1)] + ["a..b", ".a", "a.", "a.b.a.b"]
         if not T:
-            subs = ["a", "b", "a.b", "b.a", "a.a", "a.b.a", "b.a.b", "a..b", ".a", "a.b.a.b"]
-        uctx = CURATED + (rng.sample(cs3, 20) if T else [])
+            subs = ["a", "a.b", "b.a", "a.b.a", "a..b", ".a", "a.b.a.b"]
+        uctx = CURATED + (rng.sample(cs3, 10) if T else [])
         R.scope("UpdateContext (option matrix, frame, deep copy)",
                 "%d updates (simple incl. falsy and mutable, literal, formatting strings of 0..2 fields, context values, malformed templates) x all %d "
                 "combinations of value/default{unset,None,dict}/skip_on_missing/raise_on_missing/recursively x subcontexts %r (+ '', non-strings for "
@@ -1155,7 +1167,7 @@ def body(R):
                     report(R, "chk_meta", [ctx, ks, v], chk_meta(ctx, ks, v))
 
     def scope_11():   # random breadth
-        n = 30000 if T else 2500
+        n = 15000 if T else 1500
         RK = ["a", "b", "c", ""]
         RP = ["a", "b", "c", "", "x", "0"]
         R.scope("all functions, random contexts", "%d random contexts over keys {a,b,c,''}, depth <= 3, uniquely tagged leaves incl. falsy ones, "
